@@ -2,6 +2,9 @@ import Utcp.Lemmas.Conn
 import Utcp.Handshake
 import Utcp.Props.C13
 import Utcp.Props.C01
+import Utcp.Props.C18
+import Utcp.Lemmas.Emission
+import Utcp.Props.C11
 /-!
 # C04 — nothing is delivered that was not sent; nothing twice; replays are inert
 
@@ -10,6 +13,19 @@ accepted (or whose ack field lies outside the window of packets awaiting a verdi
 the receive timestamp and the cached session / client id: no delivery, no status callback, no datagram, no
 allocation — and therefore no change in what is delivered afterwards.  Over every history (from C01's order invariant):
 no reliable channel sequence number is ever handed to the application twice, whatever is replayed (`reliable_at_most_once`).
+
+**Nothing is delivered that was not sent** (last part of the file; `Lemmas/Emission.lean`, `Lemmas/Origin.lean`), in two halves that
+meet at the notion of a *good body* — a packet body that is a concatenation of encodings of well-formed bunches each of which looks
+(flags, channel, close reason, name, payload) like a bunch in a list `sent`:
+* sender, every history (`sender_emits_only_sent`): every datagram an endpoint ever emits on the data path — first transmissions,
+  retransmissions after any NAK pattern, packets flushed to make room — consists of the two headers, a good body with respect to
+  the bunches its application handed to `utcp_send_bunch` so far, and the terminators;
+* receiver, every history (`delivered_were_sent`): if the body of every packet it is given is a good body with respect to `sent`
+  — in any order, with any duplication and any loss, interleaved with its own sends — then every bunch of every callback it ever
+  makes looks like a bunch in `sent`.
+What connects the halves is that the network does not alter datagrams, plus the framing and header round trips of C11
+(`framing_round_trip`, `header_round_trip`): the receiver strips exactly the two headers the sender wrote.  Forged datagrams are
+outside (the protocol does not authenticate data packets).
 -/
 namespace Utcp.Props.C04
 open Utcp Utcp.Gen
@@ -77,5 +93,151 @@ example : ({ inSeq := 2, outSeq := 5, outAckSeq := 4 } : Notify).deltaSeq { seq 
 channel is delivered a second time -/
 theorem reliable_at_most_once (ops : List (Env × C01.Op)) (c : Conn) (h : RecvInv c) (ch : Nat) :
     (relLog ch (C01.run c ops).log).Nodup := C01.delivered_once ops c h ch
+
+/-! ## nothing is delivered that was not sent -/
+
+/-- the bunches handed to `utcp_send_bunch` in a history (accepted or refused), newest first, on top of `sent` -/
+def sentOf : List (Env × C18.Op) → List Bunch → List Bunch
+  | [], sent => sent
+  | (_, .send b) :: rest, sent => sentOf rest (b :: sent)
+  | _ :: rest, sent => sentOf rest sent
+
+theorem sentOf_mono (ops : List (Env × C18.Op)) : ∀ sent x, x ∈ sent → x ∈ sentOf ops sent := by
+  induction ops with
+  | nil => intro sent x hx; exact hx
+  | cons p rest ih =>
+    intro sent x hx
+    obtain ⟨e, op⟩ := p
+    cases op with
+    | send b => exact ih _ x (List.mem_cons_of_mem _ hx)
+    | flush => exact ih _ x hx
+    | recv bits => exact ih _ x hx
+    | update => exact ih _ x hx
+
+theorem adds_mono_sent {sent sent' : List Bunch} {c c' : Conn} (h : Adds (EP sent) c c') (hs : ∀ b ∈ sent, b ∈ sent') : Adds (EP sent') c c' :=
+  h.mono (fun _ hev => hev.mono hs)
+
+/-- **sender**: over every history of sends (valid or not), flushes, incoming packets (any bits: ACKs, NAKs, garbage) and updates, the
+send buffer and every retransmission record stay good bodies, and every datagram emitted carries a good body — with respect to the
+bunches handed to `utcp_send_bunch` so far -/
+theorem sender_run (ops : List (Env × C18.Op)) : ∀ (c : Conn) (sent : List Bunch), EInv sent c →
+    EInv (sentOf ops sent) (C18.run c ops) ∧ Adds (EP (sentOf ops sent)) c (C18.run c ops) := by
+  induction ops with
+  | nil => intro c sent h; exact ⟨h, Adds.refl _ _⟩
+  | cons p rest ih =>
+    intro c sent h
+    obtain ⟨e, op⟩ := p
+    cases op with
+    | send b =>
+      obtain ⟨s1, s2⟩ := sendBunch_einv sent e c b h
+      obtain ⟨r1, r2⟩ := ih _ (b :: sent) s1
+      exact ⟨r1, (adds_mono_sent s2 (sentOf_mono rest (b :: sent))).trans r2⟩
+    | flush =>
+      obtain ⟨s1, s2⟩ := flush_einv sent e c h
+      obtain ⟨r1, r2⟩ := ih _ sent s1
+      exact ⟨r1, (adds_mono_sent s2 (sentOf_mono rest sent)).trans r2⟩
+    | recv bits =>
+      obtain ⟨s1, s2⟩ := receivedPacket_einv sent e c bits h
+      obtain ⟨r1, r2⟩ := ih _ sent s1
+      exact ⟨r1, (adds_mono_sent s2 (sentOf_mono rest sent)).trans r2⟩
+    | update =>
+      obtain ⟨s1, s2⟩ := update_einv sent e c h
+      obtain ⟨r1, r2⟩ := ih _ sent s1
+      exact ⟨r1, (adds_mono_sent s2 (sentOf_mono rest sent)).trans r2⟩
+
+/-- … in particular, for a freshly initialised connection: every datagram in the log has the form headers ++ good body ++ terminators -/
+theorem sender_emits_only_sent (ops : List (Env × C18.Op)) (i o : Int) (d : List UInt8)
+    (hd : Event.out d ∈ (C18.run (({} : Conn).seqInit i o) ops).log) :
+    ∃ (e : Env) (s cl : Nat) (N body : Bits), d = bitsToBytes (outgoingHeader e s cl false ++ N ++ body ++ [true, true]) ∧ GoodBody (sentOf ops []) body := by
+  obtain ⟨_, new, hlog, hnew⟩ := sender_run ops (({} : Conn).seqInit i o) [] (fresh_einv _ rfl rfl)
+  rw [hlog] at hd
+  rcases List.mem_append.mp hd with hd | hd
+  · exact hnew _ hd d rfl
+  · have hl : (({} : Conn).seqInit i o).log = [] := rfl
+    rw [hl] at hd; cases hd
+
+/-- the packets a receiver is given: every one whose header parses has a good body with respect to `sent` -/
+def Offered (sent : List Bunch) : List (Env × C01.Op) → Prop
+  | [] => True
+  | (_, .recv bits) :: rest => (∀ hd body, decodePacketHeader bits = .ok (hd, body) → GoodBody sent body) ∧ Offered sent rest
+  | _ :: rest => Offered sent rest
+
+theorem receiver_run (sent : List Bunch) (ops : List (Env × C01.Op)) : ∀ c : Conn, OInv (SentQ sent) c → Offered sent ops →
+    OInv (SentQ sent) (C01.run c ops) ∧ Adds (OP (SentQ sent)) c (C01.run c ops) := by
+  induction ops with
+  | nil => intro c h _; exact ⟨h, Adds.refl _ _⟩
+  | cons p rest ih =>
+    intro c h hoff
+    obtain ⟨e, op⟩ := p
+    cases op with
+    | send b =>
+      obtain ⟨s1, s2⟩ := sendBunch_oinv e c b h
+      obtain ⟨r1, r2⟩ := ih _ s1 hoff
+      exact ⟨r1, s2.trans r2⟩
+    | flush =>
+      obtain ⟨s1, s2⟩ := flush_oinv e c h
+      obtain ⟨r1, r2⟩ := ih _ s1 hoff
+      exact ⟨r1, s2.trans r2⟩
+    | recv bits =>
+      simp only [Offered] at hoff
+      obtain ⟨s1, s2⟩ := receivedPacket_oinv (sentQ_stable sent) e c bits h (by
+        intro hd body hdec
+        obtain ⟨bs, hb, hall⟩ := hoff.1 hd body hdec
+        exact ⟨bs, hb, hall⟩)
+      obtain ⟨r1, r2⟩ := ih _ s1 hoff.2
+      exact ⟨r1, s2.trans r2⟩
+
+/-- **receiver**: whatever order, duplication or loss the offered packets come in, and whatever the endpoint itself sends in between:
+every bunch of every callback made during the history looks like a bunch in `sent` — same flags, channel, close reason, name index
+and payload -/
+theorem delivered_were_sent (sent : List Bunch) (ops : List (Env × C01.Op)) (i o : Int) (hoff : Offered sent ops)
+    (g : List Bunch) (hg : Event.recv g ∈ (C01.run (({} : Conn).seqInit i o) ops).log) :
+    ∀ q ∈ g, ∃ b ∈ sent, seen q = seen b := by
+  have h0 : OInv (SentQ sent) (({} : Conn).seqInit i o) := by
+    intro ch x hx
+    have hn : (({} : Conn).seqInit i o).getChan ch = none := rfl
+    rw [hn] at hx; cases hx
+  obtain ⟨_, new, hlog, hnew⟩ := receiver_run sent ops _ h0 hoff
+  rw [hlog] at hg
+  rcases List.mem_append.mp hg with hg | hg
+  · exact hnew _ hg g rfl
+  · have hl : (({} : Conn).seqInit i o).log = [] := rfl
+    rw [hl] at hg; cases hg
+
+/-- what "looks like" means, field by field -/
+theorem seen_eq_iff (q b : Bunch) (h : seen q = seen b) :
+    q.chIndex = b.chIndex ∧ q.bOpen = b.bOpen ∧ q.bClose = b.bClose ∧ q.bReliable = b.bReliable ∧ q.bPartial = b.bPartial ∧ q.data = b.data ∧
+    q.bPaused = b.bPaused ∧ q.bExports = b.bExports ∧ q.bGuids = b.bGuids := by
+  unfold seen at h
+  injection h with h1 h2 h3 h4 h5 h6 h7 h8 h9 h10 h11 h12 h13 h14 h15
+  exact ⟨h1, h2, h3, h5, h8, h15, h4, h6, h7⟩
+
+/-- **the glue between the two halves**: a datagram of the form the sender emits (`sender_emits_only_sent`), whose packet header
+is a well-formed header encoding, is taken apart by the receiving endpoint into exactly that header and exactly that body — so the
+body `ReceivedPacket` works on is the good body the sender wrote.  (`magic < 2^magicBits`: the configured magic value fits the
+configured width, as in every configuration the harness uses.) -/
+theorem wire_to_body (e : Env) (s cl : Nat) (h : NotifHeader) (wf : C11.WFHeader h) (body : Bits) (hm : e.magic < 2 ^ e.magicBits) :
+    readInit (bitsToBytes (outgoingHeader e s cl false ++ encodeNotifHeader h ++ body ++ [true, true]))
+      = some (outgoingHeader e s cl false ++ encodeNotifHeader h ++ body ++ [true]) ∧
+    readOutgoingHeader e (outgoingHeader e s cl false ++ encodeNotifHeader h ++ body ++ [true]) = .ok (s % 4, cl % 8, false) (encodeNotifHeader h ++ body ++ [true]) ∧
+    decodePacketHeader ((encodeNotifHeader h ++ body ++ [true]).dropLast) = .ok (h, body) := by
+  refine ⟨?_, ?_, ?_⟩
+  · have : outgoingHeader e s cl false ++ encodeNotifHeader h ++ body ++ [true, true]
+        = (outgoingHeader e s cl false ++ encodeNotifHeader h ++ body ++ [true]) ++ [true] := by simp
+    rw [this]; exact readInit_bitsToBytes _
+  · unfold readOutgoingHeader outgoingHeader
+    simp only [List.append_assoc]
+    rw [readBits_append' e.magicBits (natToBits e.magic e.magicBits) _ (natToBits_length _ _)]
+    have hmag : (e.magicBits != 0 && bitsToNat (natToBits e.magic e.magicBits) != e.magic) = false := by
+      rw [bitsToNat_natToBits, Nat.mod_eq_of_lt hm]; simp
+    simp only [hmag, Bool.false_eq_true, if_false]
+    rw [readBits_append' 2 (natToBits s 2) _ (natToBits_length _ _)]
+    simp only
+    rw [readBits_append' 3 (natToBits cl 3) _ (natToBits_length _ _)]
+    simp only [List.cons_append, List.nil_append, readBit_cons, bitsToNat_natToBits]
+  · have : (encodeNotifHeader h ++ body ++ [true]).dropLast = encodeNotifHeader h ++ body := by
+      rw [List.dropLast_concat]
+    rw [this]
+    exact C11.header_round_trip h wf body
 
 end Utcp.Props.C04
